@@ -309,6 +309,8 @@ func checkC03(w *World, r *Report) {
 	}
 	r.Rule("C03.inflow", "P6", "main-source inflow = balance(DistributorMainAccount) minus the sum of ALL states' remains (the full state list, summed over every element)", 3)
 	r.Rule("C03.conserve", "P5,P6", "in StartDistributionProcess every value credited to a state other than the final remainder was subtracted from the remainder on the same path; the final remainder is credited exactly once, unless the primary destination is Main; shares are computed with MulDecTruncate only", 4)
+	r.Rule("C03.writers", "P4", "closed world: every store to State.Remains on the distributor's block tree is the initial empty value of a new state, a credit Remains.Add(share passed in), the change of the TruncateDecimal whose integer part was paid out, or a clearing whose old value is returned as inflow", 6)
+	r.Rule("C03.burnkey", "P5,P8", "the burn state's lookup agrees with its store key: it selects by the Burn flag alone, for every element, whatever the shape of the Account field", 1)
 	r.Rule("C03.sweep", "P5", "= C14.sweep: a source sweep reports as inflow exactly the coins it moved into the main account, and nothing when the transfer failed (otherwise states are credited with coins the main account does not hold)", 4)
 	r.Rule("C03.wrapper", "P4,P6", "= C14.wrapper: bank wrappers of the distributor pass amount, accounts and result through unchanged", 4)
 	r.Rule("C03.persist", "P5", "in the end-of-block loop every element of the state list reaches SetState on every path", 3)
@@ -324,6 +326,8 @@ func checkC03(w *World, r *Report) {
 	mainAcc, _ := constOf(w, "x/cfedistributor/types", "DistributorMainAccount")
 	wrapperRule(w, r, "C03.wrapper")
 	sweepRule(w, r, "C03.sweep")
+	burnLookupRule(w, r, "C03.burnkey")
+	remainsWritersRule(w, r, "C03.writers")
 	// ---------- C03.inflow ----------
 	{
 		fn := a.prepMain
@@ -590,7 +594,8 @@ func conserveRule(w *World, r *Report, rule string, a distAnchors) {
 func checkC04(w *World, r *Report) {
 	ro := w.Roles()
 	r.Undecided = []string{"'cumulative receipts never drift by more than one base unit from share x cumulative inflow' is arithmetic and is not decided"}
-	r.Rule("C04.key", "P8,P6", "lookup key = persistence key: the in-memory state lookup compares every Account field that determines the store key (GetStateKey/GetAccountKey)", 1)
+	r.Rule("C04.key", "P8,P6", "lookup key = persistence key: the in-memory state lookup compares every Account field that determines the store key (GetStateKey/GetAccountKey); the burn state is looked up by its Burn flag alone", 2)
+	r.Rule("C04.sameshape", "P7", "= C12.sameshape for State.Account: the burn destination is served whatever shape its (unused) Account field has - no pay-out or burn is control-dependent on the nil-ness of a field that validation accepts nil (imported) and the runtime creates non-nil", 1)
 	r.Rule("C04.everyshare", "P5", "in the loop over Destinations.Shares every iteration path subtracts that share's calculatePercentage(share.Share, inflow) from the remainder, whatever the destination type", 1)
 	r.Rule("C04.fraction", "P6", "the fraction used for a destination is that destination's own Share (resp. the sub-distributor's BurnShare), applied to the sub-distributor's total inflow, and credited to that same destination", 4)
 	r.Rule("C04.order", "P4,P6", "= C03.order: the outcome must not depend on the order in which sources are listed", 1)
@@ -663,6 +668,14 @@ func checkC04(w *World, r *Report) {
 			r.Check(uses && len(keyFields) >= 2 && len(missing) == 0, "C04.key", "findAccountState compares every field of the persistence key", w.Pos(a.findAcc.Pos()),
 				fmt.Sprintf("key fields %v all compared", keysOf(keyFields)), fmt.Sprintf("the store key is built from %v but the lookup does not compare %v: accounts of different types sharing an id are merged into one state", keysOf(keyFields), missing))
 		}
+	}
+	burnLookupRule(w, r, "C04.key")
+	// ---------- C04.sameshape ----------
+	for _, nf := range w.mayBeNilFields(flatten(ro.EXPORT)) {
+		if nf.Field != "Account" {
+			continue
+		}
+		w.checkSameShape(r, "C04.sameshape", nf, ro.BLK["cfedistributor"])
 	}
 	// ---------- C04.everyshare / fraction ----------
 	{
@@ -989,5 +1002,169 @@ func sweepRule(w *World, r *Report, rule string) {
 			}
 		}
 		r.Check(toMain, rule, funcName(fn)+": swept into the distributor main account", w.Pos(xfer.Instr.Pos()), "destination constant", fmt.Sprintf("sweep destination %v", names))
+	}
+}
+
+// burnLookupRule: the burn state is stored under a key of its own, chosen by nothing but the Burn flag
+// (State.Validate: Burn <=> no account); the in-memory lookup must select by that flag alone, whatever shape the
+// Account field has (nil after a genesis import or migration, empty when created at run time).
+func burnLookupRule(w *World, r *Report, rule string) {
+	fn := w.Func("x/cfedistributor/keeper.findBurnState")
+	if fn == nil {
+		r.Unk("infra.anchor", "x/cfedistributor/keeper.findBurnState", "", "anchor not found")
+		return
+	}
+	// follow "return g(...)" delegation
+	for depth := 0; depth < 2; depth++ {
+		rets := Returns(fn)
+		if len(rets) != 1 {
+			break
+		}
+		c, ok := retVals(rets[0])[0].(*ssa.Call)
+		if !ok || c.Common().StaticCallee() == nil || c.Common().StaticCallee().Blocks == nil || !w.isProdFunc(c.Common().StaticCallee()) {
+			break
+		}
+		fn = c.Common().StaticCallee()
+	}
+	construct := "burn state lookup selects by the Burn flag alone"
+	var burnLoads []ssa.Value
+	for _, b := range fn.Blocks {
+		for _, in := range b.Instrs {
+			if v, ok := in.(ssa.Value); ok && loadOfField(v, "Burn", nil) {
+				burnLoads = append(burnLoads, v)
+			}
+		}
+	}
+	if len(burnLoads) == 0 {
+		r.Bad(rule, construct, w.Pos(fn.Pos()), "the lookup ("+funcName(fn)+") never reads State.Burn: a burn state stored without an account (after genesis import or migration) and one created at run time (empty account) are not both found, and a second burn state overwrites the first under the same key")
+		return
+	}
+	var edges []Edge
+	loadBlocks := map[*ssa.BasicBlock]bool{}
+	for _, v := range burnLoads {
+		edges = append(edges, boolValueEdges(fn, v, true)...)
+		loadBlocks[v.(ssa.Instruction).Block()] = true
+	}
+	ok := true
+	why := ""
+	for _, ret := range Returns(fn) {
+		v := retVals(ret)[0]
+		if c, isC := v.(*ssa.Const); isC && c.Value != nil && c.Int64() < 0 {
+			continue
+		}
+		if !MustPass(fn, edges, ret.Block()) {
+			ok = false
+			why = "a position is returned for a state whose Burn flag was not tested true"
+		}
+	}
+	loops := rangeLoops(fn)
+	if len(loops) != 1 {
+		ok = false
+		why = "no single loop over the states"
+	} else if !loopBodyMustPass(loops[0], func(b *ssa.BasicBlock) bool { return loadBlocks[b] }) {
+		// leaving the loop with the found position is fine; skipping an element before its flag is read is not
+		skip := false
+		in := loopBlocks(loops[0].Header)
+		var walk func(b *ssa.BasicBlock, seen map[*ssa.BasicBlock]bool)
+		walk = func(b *ssa.BasicBlock, seen map[*ssa.BasicBlock]bool) {
+			if seen[b] || loadBlocks[b] || !in[b] {
+				return
+			}
+			seen[b] = true
+			for _, s := range b.Succs {
+				if s == loops[0].Header {
+					skip = true
+				}
+				walk(s, seen)
+			}
+		}
+		walk(loops[0].Body, map[*ssa.BasicBlock]bool{})
+		if skip {
+			ok = false
+			why = "some states are skipped before their Burn flag is read"
+		}
+	}
+	r.Check(ok, rule, construct, w.Pos(fn.Pos()), "every element's Burn flag is read; a position is returned only on its true edge", why)
+}
+
+// remainsWritersRule (closed world): every store to State.Remains on the distributor's block tree is one of the
+// four book-keeping moves; anything else would change the books without a matching movement of coins.
+func remainsWritersRule(w *World, r *Report, rule string) {
+	cg := w.CG()
+	ro := w.Roles()
+	tr := w.Tracer()
+	n := map[string]int{}
+	for fn := range cg.Reach(ro.BLK["cfedistributor"]) {
+		if !w.isProdFunc(fn) {
+			continue
+		}
+		for _, fs := range FieldStores(fn) {
+			if fs.Field != "Remains" || !namedIs(fs.Struct, "x/cfedistributor/types", "State") {
+				continue
+			}
+			val := fs.Store.Val
+			kind := ""
+			switch {
+			case isEmptyDecCoins(val):
+				// zeroing: either a new state's initial value, or the old value is carried into the returned inflow
+				if _, isAlloc := fs.FA.X.(*ssa.Alloc); isAlloc {
+					kind = "initial value of a new state"
+				} else {
+					carried := false
+					for _, ret := range Returns(fn) {
+						for _, rv := range retVals(ret) {
+							if tr.Origins(rv).HasPath("State.Remains") {
+								carried = true
+							}
+						}
+					}
+					if carried {
+						kind = "cleared and carried into the inflow returned"
+					}
+				}
+			default:
+				if c, ok := isCallTo(val, "types.DecCoins.Add"); ok && loadOfField(c.Common().Args[0], "Remains", nil) {
+					// credit: Remains = Remains.Add(share parameter)
+					o := tr.Origins(c.Common().Args[1])
+					if _, isP := stripSlice(c.Common().Args[1]).(*ssa.Parameter); isP || o.HasLeaf("param", "") {
+						kind = "credit of the share passed in"
+					}
+				}
+				if ex, ok := val.(*ssa.Extract); ok && ex.Index == 1 {
+					if c, ok := ex.Tuple.(*ssa.Call); ok && strings.HasSuffix(callName(c.Common()), "DecCoins.TruncateDecimal") {
+						kind = "change left after a pay-out"
+					}
+				}
+			}
+			construct := fmt.Sprintf("%s: State.Remains := %s", funcName(fn), map[bool]string{true: kind, false: "?"}[kind != ""])
+			n[funcName(fn)+kind]++
+			if kind == "" {
+				r.Bad(rule, fmt.Sprintf("%s: unclassified store to State.Remains #%d", funcName(fn), n[funcName(fn)+kind]), w.Pos(fs.Store.Pos()), "this write of a state's leftover is neither the initial value, a credit of the share passed in, the change after a pay-out, nor a clearing whose old value is returned as inflow: the books change without coins moving")
+			} else {
+				r.Enum(rule, fmt.Sprintf("%s #%d", construct, n[funcName(fn)+kind]), w.Pos(fs.Store.Pos()), kind)
+			}
+		}
+	}
+}
+
+func isEmptyDecCoins(v ssa.Value) bool {
+	c, ok := v.(*ssa.Call)
+	if !ok || !strings.HasSuffix(callName(c.Common()), "types.NewDecCoins") {
+		return false
+	}
+	a := c.Common().Args
+	return len(a) == 0 || isNilConst(a[0])
+}
+
+func stripSlice(v ssa.Value) ssa.Value {
+	for {
+		switch x := v.(type) {
+		case *ssa.Slice:
+			v = x.X
+		case *ssa.ChangeType:
+			v = x.X
+		default:
+			return v
+		}
 	}
 }
